@@ -40,7 +40,7 @@ def run_harness(mode, n, seed, out, timeout=1500, fixtures=None):
         raise vlib.Infra("txn harness (%s) failed rc=%s:\n%s" % (mode, p.returncode, p.stdout[-3000:]))
     return None
 
-def model_check(wd, tier="quick"):
+def model_check(wd, tier="quick", prop=""):
     r = vlib.run_tlc(os.path.join(wd, "mc"), "MC_Percolator", workers=16, timeout=1500)
     if not r.ok:
         raise vlib.Infra("MC_Percolator fails on the specification itself (%s):\n%s" % (r.invariant, r.out[-2500:]))
@@ -52,6 +52,14 @@ def model_check(wd, tier="quick"):
     if ap.ok or ap.invariant != "OneOutcome":
         raise vlib.Infra("AsyncCommit.tla with cleanup after an undetermined prewrite no longer violates OneOutcome:\n" + ap.out[-1500:])
     r.async_commit = a.summary()
+    if prop in ("C02", "C03"):
+        # one-phase commit: the I-spec holds; keeping async commit after a fall-back, or calling a lost answer a definite failure, must fail
+        o = vlib.run_tlc(os.path.join(wd, "mc"), "OnePC", cfg="MC_OnePC.cfg", workers=2, timeout=600)
+        ok1 = vlib.run_tlc(os.path.join(wd, "mc"), "OnePC", cfg="MC_OnePC_keepasync.cfg", workers=2, timeout=600)
+        ok2 = vlib.run_tlc(os.path.join(wd, "mc"), "OnePC", cfg="MC_OnePC_definite.cfg", workers=2, timeout=600)
+        if not o.ok or ok1.ok or ok1.invariant != "AckHolds" or ok2.ok or ok2.invariant != "FailHolds":
+            raise vlib.Infra("OnePC.tla: the specification must hold and its two variants must fail AckHolds / FailHolds:\n" + o.out[-800:] + ok1.out[-800:] + ok2.out[-800:])
+        r.one_pc = o.summary()
     vlib.clean_tlc_dir(os.path.join(wd, "mc"))
     return r
 
@@ -65,7 +73,7 @@ def run_txn_check(prop, families, tier, seed, replay, monitors=("TxnHistory",), 
     if replay:
         traces = [("replay", replay)]
     else:
-        mc = model_check(wd, tier)
+        mc = model_check(wd, tier, prop)
         build_harness()
         fixtures = None
         for mode, nq, nt in families:
@@ -123,7 +131,7 @@ def run_txn_check(prop, families, tier, seed, replay, monitors=("TxnHistory",), 
                evaluations=sum(s["events"] for s in stats.values()), distinct_nontrivial=max(2, nontrivial),
                rule="scenarios executed on the real client over mocktikv through the wire gate; distinct = distinct scenario descriptors "
                     "(shape / layout / mode / fault position / companion or seed-generated workload)",
-               per_family=stats, samples=samples, model_check=mc.summary() if mc else None, async_commit_model_check=getattr(mc, "async_commit", None) if mc else None,
+               per_family=stats, samples=samples, model_check=mc.summary() if mc else None, async_commit_model_check=getattr(mc, "async_commit", None) if mc else None, one_pc_model_check=getattr(mc, "one_pc", None) if mc else None,
                checker_cmd="tlc MC_Percolator ; tlc AsyncCommit (holds; pinned committer must fail OneOutcome) ; go build harness/txn ; txnh -mode ... ; tlc " + " ; tlc ".join(monitors))
     cov.update(extra_cov or {})
     vlib.write_evidence(prop, tier, seed, "model_checking", cov, time.time() - t0, nviol + len(v.known_hits),
